@@ -1,4 +1,4 @@
 SPECIFICATION Spec
 CONSTANTS
-  Contracts = {"RandomBeacon", "TokenStaking", "WalletRegistry", "Bridge", "MaintainerProxy", "LightRelay", "LightRelayMaintainerProxy", "WalletProposalValidator"}
+  Contracts = {"RandomBeacon", "TokenStaking", "WalletRegistry", "Bridge", "MaintainerProxy"}
 INVARIANTS ExplicitKept DefaultsOnlyForUnset NetworksConsistent DeveloperHasNoDefaults
